@@ -67,6 +67,7 @@ type netWorld struct {
 	payloads  map[string]*netPub // data -> publication
 	lastChurn time.Duration
 	nextSeq   int
+	kills     map[[2]int]int // per pair: stream deaths caused so far (resets and disconnects)
 
 	extraOps  map[string]func(it Item)
 	afterItem []func(it Item)
@@ -107,7 +108,7 @@ func (w *netWorld) topicName(i int64) string {
 
 func newNetWorld(s *sim) *netWorld {
 	p := s.plan
-	w := &netWorld{s: s, plan: p, conn: map[[2]int]bool{}, fanoutOnly: map[string]bool{}, payloads: map[string]*netPub{}, extraOps: map[string]func(Item){}}
+	w := &netWorld{s: s, plan: p, conn: map[[2]int]bool{}, fanoutOnly: map[string]bool{}, payloads: map[string]*netPub{}, extraOps: map[string]func(Item){}, kills: map[[2]int]int{}}
 	for i := 0; i < p.ki("ntopics", 1); i++ {
 		w.topics = append(w.topics, fmt.Sprintf("t%d", i))
 	}
@@ -227,6 +228,20 @@ func (w *netWorld) neighbours(i int) []int {
 	return out
 }
 
+// killBudget: the library gives up on a peer whose outbound stream had to be re-opened
+// MaxBackoffAttempts (4) times within 10 minutes while it stayed (or was again) connected; that is a
+// documented design limit, not what C01/C05 are about. The world therefore causes at most 3 stream
+// deaths per pair and run (a disconnect that is followed by a quick reconnect counts as one).
+func (w *netWorld) killBudget(a, b int) bool {
+	k := pairKey(a, b)
+	if w.kills[k] >= MaxBackoffAttempts-1 {
+		w.s.probe("skipped_at_give_up_limit")
+		return false
+	}
+	w.kills[k]++
+	return true
+}
+
 func (w *netWorld) churn() {
 	w.lastChurn = w.s.now()
 	for _, pb := range w.pubs {
@@ -283,7 +298,7 @@ func (w *netWorld) exec(it Item) {
 		})
 	case "disc":
 		a, b := w.idx(it.a(0)), w.idx(it.a(1))
-		if !w.connected(a, b) {
+		if !w.connected(a, b) || !w.killBudget(a, b) {
 			return
 		}
 		delete(w.conn, pairKey(a, b))
@@ -298,7 +313,7 @@ func (w *netWorld) exec(it Item) {
 			return
 		}
 		st := w.outStream(a, b)
-		if st == nil {
+		if st == nil || !w.killBudget(a, b) {
 			return
 		}
 		w.churn()
